@@ -8,7 +8,8 @@
 (*  layout     current_layout                                              *)
 (*  tracts     sequence of                                                 *)
 (*     [trs: chars, attrs: {twp:{k,n,d,s}, rge:.., sec:.., twprge: chars}, *)
-(*      whole: desc = entire preprocessed text, orig_ok, source_ok,        *)
+(*      whole: desc = entire preprocessed text up to cleaned ends,         *)
+(*      verbatim: desc = entire preprocessed text, orig_ok, source_ok,     *)
 (*      index: orig_index, markers: marker ids found in desc,              *)
 (*      wflags, eflags: interned flags, typed: all flags str and all lines *)
 (*      (str, str) tuples, wfirsts/efirsts: interned first components]     *)
@@ -86,6 +87,9 @@ ClauseC11(o, x) ==
   ELSE IF Cardinality(Wholes(o)) > 1 THEN "two_tracts_carry_the_complete_text"
   ELSE IF x.forced_copy_all /\ (Len(o.tracts) # 1 \/ Wholes(o) = {}) THEN "forced_copy_all_not_one_whole_tract"
   ELSE IF o.layout = "copy_all" /\ (Len(o.tracts) # 1 \/ Wholes(o) = {}) THEN "copy_all_not_one_whole_tract"
+  \* the copy_all layout itself (requested, or deduced for lack of a Twp/Rge or section) hands the text over untouched;
+  \* only the fallback from another layout passes through the clean-up of the ends
+  ELSE IF o.layout = "copy_all" /\ Len(o.tracts) = 1 /\ ~o.tracts[1].verbatim THEN "copy_all_text_not_verbatim"
   ELSE IF x.must_fall_back /\ (Len(o.tracts) # 1 \/ Wholes(o) = {}) THEN "fallback_not_one_whole_tract"
   ELSE IF x.must_fall_back /\ ~x.both_found /\ Len(o.eflags) = 0 THEN "fallback_without_error_flag"
   ELSE "ok"
